@@ -30,6 +30,58 @@ def creation_calls(f):
     return out
 
 
+def _c_float_buffer(node):
+    """np.ascontiguousarray(x, dtype=float) / np.array(x, dtype=float, order='C') / np.require(x, float, 'C'): a C-ordered float64 array whatever x was"""
+    if not isinstance(node, ast.Call):
+        return False
+    name = ast.unparse(node.func).split(".")[-1]
+    kws = {k.arg: k.value for k in node.keywords if k.arg}
+    dt = kws.get("dtype") or (node.args[1] if len(node.args) > 1 else None)
+    is_float = dt is not None and ast.unparse(dt) in ("float", "np.float64", "numpy.float64", "'float64'", "np.double")
+    if name == "ascontiguousarray":
+        return is_float
+    if name in ("array", "asarray") and is_float:
+        return "order" in kws and ast.unparse(kws["order"]) in ("'C'", '"C"')
+    return False
+
+
+class LayoutFacts(Facts):
+    """adds the must-fact ("CBUF", <local name>): the local currently holds a C-contiguous float64 array (killed by any other rebinding)"""
+    def bind(self, t, value_node, val, st, stmt):
+        if isinstance(t, ast.Name):
+            st["F"] = frozenset(x for x in st["F"] if x != ("CBUF", t.id))
+            st["F"] = frozenset(x for x in st["F"] if x != ("FLOATCOPY", t.id))
+        super().bind(t, value_node, val, st, stmt)
+        if isinstance(t, ast.Name) and _c_float_buffer(value_node):
+            self.add(st, "CBUF", t.id)
+        if isinstance(t, ast.Name) and isinstance(value_node, ast.Call) and ast.unparse(value_node.func) in ("np.array", "numpy.array") \
+                and not any(k.arg == "copy" for k in value_node.keywords):
+            # np.array copies: a fresh array; float if dtype=float or if a float literal is among the listed elements
+            kws = {k.arg: k.value for k in value_node.keywords if k.arg}
+            floaty = ("dtype" in kws and ast.unparse(kws["dtype"]) in ("float", "np.float64")) or \
+                     (value_node.args and isinstance(value_node.args[0], (ast.List, ast.Tuple)) and any(isinstance(e, ast.Constant) and isinstance(e.value, float) for e in value_node.args[0].elts))
+            if floaty:
+                self.add(st, "FLOATCOPY", t.id)
+
+
+def buffer_layout(chk, f, node, buf, st, one_dim_gate=False):
+    """BUFFER-LAYOUT: ndarray.__new__(subtype, shape, float, buffer) reads `buffer` as raw C-ordered float64 memory.  The array handed over
+    must be known to have exactly that layout, otherwise a Fortran-ordered (transposed), strided or integer input is silently reinterpreted:
+    the object's own array value then differs from the validated/normalised one kept in the shadow attribute."""
+    site = "%s::buffer of ndarray.__new__" % f.ref
+    name = buf.id if isinstance(buf, ast.Name) else None
+    if name is not None and ("CBUF", name) in st["F"]:
+        chk.record("BUFFER-LAYOUT", site, "the buffer is np.ascontiguousarray(..., dtype=float) on every path")
+        return
+    if name is not None and ("RANK1", name) in st["F"] and ("FLOATCOPY", name) in st["F"]:
+        chk.record("BUFFER-LAYOUT", site, "the buffer is a float copy of an array whose shape gate admits rank 1 only (a rank-1 copy is contiguous)")
+        return
+    why = "`%s` is handed to ndarray.__new__ as a raw buffer without being made C-contiguous float64 first: for a Fortran-ordered / transposed / strided or " \
+          "integer-typed input the object's array value is a reinterpretation of the memory (scrambled rows, transposed matrix, denormal garbage)" % (name or ast.unparse(buf))
+    chk.record("BUFFER-LAYOUT", site, "buffer provably C-contiguous float64", verdict="VIOLATION", detail=why)
+    chk.finding("BUFFER-LAYOUT", f.module.rel, f.qname, "buffer argument `%s`" % (name or ast.unparse(buf)), why, line=node.lineno)
+
+
 def quat_ctor(chk, prog, ref, versor_param):
     f = prog.func(ref)
     chk.touch(f)
@@ -45,7 +97,7 @@ def quat_ctor(chk, prog, ref, versor_param):
             chk.error("CTOR-GATE: no ndarray.__new__ call found in %s" % ref)
             return
 
-        class G(Facts):
+        class G(LayoutFacts):
             def refine(self2, test, st, truth):
                 super().refine(test, st, truth)
                 # shape gate: `x.ndim != k or x.shape[-1] not in [...]` being False
@@ -54,11 +106,17 @@ def quat_ctor(chk, prog, ref, versor_param):
                     for n in ast.walk(test):
                         if isinstance(n, ast.Attribute) and n.attr == "ndim" and isinstance(n.value, ast.Name):
                             self2.add(st, "SHAPECHK", n.value.id)
+                    for n in ast.walk(test):
+                        if isinstance(n, ast.Compare) and ast.unparse(n.left).endswith(".ndim") and isinstance(n.ops[0], ast.NotEq) \
+                                and isinstance(n.comparators[0], ast.Constant) and n.comparators[0].value == 1 and isinstance(n.left.value, ast.Name):
+                            self2.add(st, "RANK1", n.left.value.id)
         fa = G(f, prog, callbacks={"call": on_call}, assume={versor_param: versor}).analyse()
         if not seen:
             chk.error("CTOR-GATE: creation call of %s not reached with %s=%s" % (ref, versor_param, versor))
             continue
         for node, buf, st, fa2 in seen:
+            if versor:
+                buffer_layout(chk, f, node, buf, st)
             site = "%s::create[%s=%s]" % (ref, versor_param, versor)
             name = buf.id if isinstance(buf, ast.Name) else None
             problems = []
@@ -96,10 +154,11 @@ def dcm_ctor(chk, prog):
         if node in creates:
             buf = node.args[3] if len(node.args) > 3 else None
             seen.append((node, buf, dict(st), fa))
-    Facts(f, prog, callbacks={"call": on_call}).analyse()
+    LayoutFacts(f, prog, callbacks={"call": on_call}).analyse()
     if not seen:
         chk.error("CTOR-GATE.dcm: no reachable ndarray.__new__ call in DCM.__new__")
     for node, buf, st, fa in seen:
+        buffer_layout(chk, f, node, buf, st)
         ok = buf is not None and ("SO3CHK", fa.vn(buf, st)) in st["F"]
         site = ref + "::create"
         if ok:
@@ -259,6 +318,23 @@ def canaries(chk, prog):
                         n.test = ast.parse("np.any(q_norm == 0)").body[0].value
                         return True
         return False
+    def drop_contig(tree):
+        for c in ast.walk(tree):
+            if isinstance(c, ast.ClassDef) and c.name == "DCM":
+                for fn_ in c.body:
+                    if isinstance(fn_, ast.FunctionDef) and fn_.name == "__new__":
+                        for i, s_ in enumerate(fn_.body):
+                            if isinstance(s_, ast.Assign) and "ascontiguousarray" in ast.unparse(s_.value):
+                                fn_.body[i] = ast.Pass()
+                                return True
+        return False
+    try:
+        p2 = prog.mutated(DCM, drop_contig)
+        sub = Check("C11", chk.tier, p2, quiet=True)
+        dcm_ctor(sub, p2)
+        chk.canary("hand the caller's matrix to ndarray.__new__ without ascontiguousarray (DCM)", any(f_.rule == "BUFFER-LAYOUT" for f_ in sub.findings), "%d findings" % len(sub.findings))
+    except Exception as e:
+        chk.canary("raw buffer in DCM.__new__", False, "canary crashed: %s: %s" % (type(e).__name__, e))
     for name, rel, tr, fn in (("drop the det test from _assert_SO3", DCM, drop_det, lambda sub, p2: so3_gate(sub, p2, DCM + "::_assert_SO3")),
                              ("`~(n > 0)` -> `n == 0` in QuaternionArray.__new__", QUAT, weaken_zero, lambda sub, p2: quat_ctor(sub, p2, QUAT + "::QuaternionArray.__new__", "versors"))):
         try:
@@ -279,5 +355,6 @@ def run(chk, prog, tier):
     rewrap_and_returns(chk, prog)
     chk.require_count("CTOR-GATE.quat", 4)
     chk.require_count("SO3-GATE", 2)
+    chk.require_count("BUFFER-LAYOUT", 3)
     canaries(chk, prog)
     return __doc__
